@@ -5,7 +5,7 @@ M7 energy trace + sweep order, end-to-end contract on sle.als/sle.mals, and driv
 import numpy as np
 
 from .. import gen, probe, monitors_sle
-from ..dense import dense, mat
+from ..dense import dense, mat, core_scale
 from ..drive import call
 from ..shard import Workload
 from ._common import arm_light
@@ -52,6 +52,19 @@ def hpd_operator(rng, dims, cplx):
         return total, 'local_sum'
 
 
+EPS = 2.220446049250313e-16
+# "up to rounding" for the exactness clauses: the relative forward error of a backward-stable dense solve is a small multiple of
+# eps * cond(A); the unchanged library stays below 100 eps cond on every problem class driven here (histogram
+# sle_accuracy_in_eps_cond:* in the evidence, thorough tier: 46000 cases), the bound used is 300 eps cond
+FWD_K = float(__import__('os').environ.get('VERIF_C07_FWD_K', '300'))
+
+
+def _decade(ctx, clause, value, cond):
+    """histogram (evidence, and the calibration of the exactness tolerances): achieved accuracy in units of eps * cond(A)"""
+    r = value / max(EPS * cond, 1e-300)
+    ctx.events['sle_accuracy_in_eps_cond:%s:1e%+d' % (clause, int(np.floor(np.log10(max(r, 1e-3)))))] += 1
+
+
 def problem(rng, mals=False):
     d = int(rng.integers(2 if mals else 1, 5))
     dims = gen.rand_dims(rng, d, 3, p_one=0.15)
@@ -82,11 +95,18 @@ def guess(rng, dims, cplx, kind):
         return gen.rand_tt(rng, dims, [1] * d, r, cplx)
 
 
+LAST_FORWARD = [None, 1.0]  # relative forward error (2-norm) of the last aerr() call
+
+
 def aerr(A, b, x):
     with probe.oracle():
         Am = mat(dense(A))
         xs = np.linalg.solve(Am, mat(dense(b)).reshape(-1))
         e = mat(dense(x)).reshape(-1) - xs
+        LAST_FORWARD[0] = float(np.linalg.norm(e) / max(np.linalg.norm(xs), 1e-300))
+        # cancellation inside the trains (a local-sum operator whose terms nearly cancel, a right-hand side given as a sum): rounding is
+        # relative to the size of the cores, not of the represented tensor
+        LAST_FORWARD[1] = max(1.0, core_scale(A.cores) / max(float(np.linalg.norm(Am)), 1e-300)) * max(1.0, core_scale(b.cores) / max(float(np.linalg.norm(mat(dense(b)))), 1e-300))
         return float(np.sqrt(max(np.real(np.vdot(e, Am @ e)), 0))), float(np.sqrt(max(np.real(np.vdot(xs, Am @ xs)), 0))), float(np.linalg.cond(Am))
 
 
@@ -119,12 +139,18 @@ def w_solve(ctx, rng, idx):
             ctx.skip('sle_singular_micro_system')
             return
         errs.append(aerr(A, b, x))
+        if len(errs) == 1:
+            fwd0, amp0 = LAST_FORWARD[0], LAST_FORWARD[1]
     e0 = aerr(A, b, g)
     nx, cA = errs[0][1], errs[0][2]
     slack = 1e-8 * nx * np.sqrt(cA)
     ctx.check('sle.' + name, 'more_sweeps_not_worse', errs[1][0] <= errs[0][0] * (1 + 1e-6) + slack and errs[2][0] <= errs[1][0] * (1 + 1e-6) + slack, tags,
               {'errors_by_repeats': [e0[0]] + [e[0] for e in errs], 'dims': dims, 'guess_ranks': g.ranks}, prop=P)
     if gk == 'maximal':
+        _decade(ctx, 'exact_after_one_sweep', errs[0][0] / max(nx, 1e-300), cA)
+        _decade(ctx, 'exact_after_one_sweep_forward', fwd0 / amp0, cA)
+        ctx.check('sle.' + name, 'maximal_rank_guess_exact_after_one_sweep', fwd0 <= (FWD_K * EPS * amp0 + 1e3 * (kw.get('threshold', 1e-12) if use_mals else 0.0)) * cA, tags + ['forward_error'],
+                  {'relative_forward_error': fwd0, 'cond': cA, 'in_units_of_eps_cond': fwd0 / (EPS * cA), 'dims': dims, 'guess_ranks': g.ranks}, prop=P)
         ctx.check('sle.' + name, 'maximal_rank_guess_exact_after_one_sweep', errs[0][0] <= 1e-7 * nx * np.sqrt(cA) + 1e-300, tags,
                   {'err': errs[0][0], 'norm': nx, 'cond': cA, 'dims': dims, 'guess_ranks': g.ranks}, prop=P)
     # the same operator / guess objects with another right-hand side, and with the right-hand side changed in place by its owner
@@ -138,6 +164,10 @@ def w_solve(ctx, rng, idx):
             ok, x2 = call('sle.' + name, fn, A, g, b2, prop=P, tags=tags + ['second_call'], refusals=(np.linalg.LinAlgError,), repeats=1, **kw)
             if ok and gk == 'maximal':
                 e2 = aerr(A, b2, x2)
+                _decade(ctx, 'exact_after_one_sweep', e2[0] / max(e2[1], 1e-300), e2[2])
+                _decade(ctx, 'exact_after_one_sweep_forward', LAST_FORWARD[0] / LAST_FORWARD[1], e2[2])
+                ctx.check('sle.' + name, 'maximal_rank_guess_exact_after_one_sweep', LAST_FORWARD[0] <= (FWD_K * EPS * LAST_FORWARD[1] + 1e3 * (kw.get('threshold', 1e-12) if use_mals else 0.0)) * e2[2], tags + ['second_call', 'forward_error'],
+                          {'relative_forward_error': LAST_FORWARD[0], 'cond': e2[2], 'dims': dims, 'guess_ranks': g.ranks}, prop=P)
                 ctx.check('sle.' + name, 'maximal_rank_guess_exact_after_one_sweep', e2[0] <= 1e-7 * e2[1] * np.sqrt(e2[2]) + 1e-300, tags + ['second_call'],
                           {'err': e2[0], 'norm': e2[1], 'cond': e2[2], 'dims': dims, 'guess_ranks': g.ranks}, prop=P)
     # rank-capped MALS
@@ -188,7 +218,9 @@ def w_fixed_point(ctx, rng, idx):
         a, c = mat(dense(x)).reshape(-1), mat(dense(xs)).reshape(-1)
         cA = float(np.linalg.cond(mat(dense(A))))
         rel = float(np.linalg.norm(a - c) / max(np.linalg.norm(c), 1e-300))
-    ctx.check('sle.' + name, 'exact_solution_is_fixed_point', rel <= 1e-8 * cA, tags, {'rel_change': rel, 'cond': cA, 'dims': dims, 'ranks': xs.ranks}, prop=P)
+        amp = max(1.0, core_scale(A.cores) / max(float(np.linalg.norm(mat(dense(A)))), 1e-300)) * max(1.0, core_scale(b.cores) / max(float(np.linalg.norm(mat(dense(b)))), 1e-300))
+    _decade(ctx, 'fixed_point', rel / amp, cA)
+    ctx.check('sle.' + name, 'exact_solution_is_fixed_point', rel <= (FWD_K * EPS * amp + (1e-9 if use_mals else 0.0)) * cA, tags, {'rel_change': rel, 'cond': cA, 'dims': dims, 'ranks': xs.ranks}, prop=P)
 
 
 def w_structured(ctx, rng, idx):
